@@ -118,6 +118,29 @@ theorem one_leader_id_is_at_most_one_flagged_member :
   @_root_.Drummer.lead_count_le_one
 
 
+/-! ### the time a member was first seen survives for as long as it stays a member: the merge of a newer membership
+    keeps the whole record of every member that stays (new members get the current time), the stamping pass rewrites
+    report times only -/
+
+theorem merge_keeps_the_record_of_members_that_stay :
+    ∀ (c c' : Shard) (ci : ShardInfo) (t : Nat) (rej : Bool),
+      List.Nodup (List.map (fun x => x.replicaId) c.replicas) →
+        Shard.sync c ci t = Outcome.ok (rej, c') →
+          ∀ (r : Replica), r ∈ c.replicas → ∀ (r' : Replica), r' ∈ c'.replicas → r'.replicaId = r.replicaId → r' = r :=
+  @_root_.Drummer.sync_keeps_first_observed
+
+theorem stamping_pass_keeps_first_seen_times :
+    ∀ (mc : MultiShard) (nhi : NodeHostInfo) (c' : Shard),
+      c' ∈ (updateNodeTick mc nhi).shards →
+        ∃ c,
+          c ∈ mc.shards ∧
+            c.shardId = c'.shardId ∧
+              c.cci = c'.cci ∧
+                List.map (fun r => (r.replicaId, r.address, r.firstObserved)) c'.replicas =
+                  List.map (fun r => (r.replicaId, r.address, r.firstObserved)) c.replicas :=
+  @_root_.Drummer.updateNodeTick_first_observed
+
+
 end C04
 end Drummer
 
